@@ -276,7 +276,8 @@ def scenario_pre_options(case, ctx, desc):
         args["opts"]["correct_force_slope"]["region"] = e["region_b"]
 
     def call(idnt, args):
-        idnt.apply_preprocessing(args["steps"], args["opts"])
+        # (details requested in some cases: the step keyword dictionaries then receive `ret_details`)
+        idnt.apply_preprocessing(args["steps"], args["opts"], ret_details=e["pipe_a"] % 2 == 0)
 
     _twin(case, ctx, desc, make, edit, call, prep=lambda c: new_curve(c),
           stored=lambda i: (copy.deepcopy(i.preprocessing_options),
